@@ -32,7 +32,7 @@ def run(tier, replay=None):
     ck.add_run(res)
     ck.handle_violations(res, rp, env=env, timeout=20, per_key=2, accept=accept)
     # group 2 + 3: driver discipline, damaged programs
-    res = run_symgo(mod, hp, "main", "^Harness_C16_(Driver|Truncate|TokenDamage|Indent|Bodies|SymbolicBytes|CyclicTypes)$", steps=20000000, depth=30000, env=env,
+    res = run_symgo(mod, hp, "main", "^Harness_C16_(Driver|Truncate|TokenDamage|Indent|Bodies|SymbolicBytes|CyclicTypes|CyclicUnification)$", steps=20000000, depth=30000, env=env,
                     maxpaths=3000000, timeout=600, extra=["-bound-is-violation"])
     ck.add_run(res)
     ck.handle_violations(res, rp, env=env, timeout=40, per_key=2, accept=accept)
